@@ -158,7 +158,7 @@ def r3_defines_are_integers(ctx: Ctx) -> None:
     val = adds[0].args[1]
     conv = isinstance(val, ast.Call) and call_name(val) in ("eval_expression_str", "int", "eval_number")
     ctx.check(conv, "cli_main:-D value", f"the value text goes through the expression evaluator / int() before becoming a symbol; found `{unparse(val)}` "
-              "(a string symbol cannot be evaluated: 'Unable to resolve')")
+              "(a string symbol cannot be evaluated: 'Unable to resolve')", fact=True)
     from ..match import canon as _cn12b
 
     ctx.check(_cn12b(cli.node, adds[0].func, keep=["program"]).startswith("program.resolver.current_scope"), "cli_main:-D scope", "defined in the root scope, before assembling")
